@@ -105,6 +105,26 @@ def cases(rng, tier):
             b, _ = dns.encode_marked(q, rng, 0)
             toks += ["D"] + dns.name_toks(SVC) + dns.name_toks(ME) + [b.hex()]
     out.append("STORE " + " ".join(toks))
+    # histories in real time: a peer's records (three and more under one name) expire, stay expired for a while, and then a goodbye
+    # (TTL 0) or a fresh announcement arrives for one of them - first, middle or last stored; the listener handles each datagram
+    for which in range(4):
+        owner = [b"late%d" % which] + SVC
+        recs = [{"name": owner, "class": 1, "ttl": 1, "cf": False, "rdata": ("T", "SRV", [("I", 0), ("I", 0), ("I", 80), ("N", owner)])},
+                {"name": owner, "class": 1, "ttl": 1, "cf": False, "rdata": ("T", "TXT", [("L", [(0, b"k=v")])])},
+                {"name": owner, "class": 1, "ttl": 1, "cf": False, "rdata": ("T", "A", [("I", 0x0a000001)])},
+                {"name": owner, "class": 1, "ttl": 1, "cf": False, "rdata": ("T", "AAAA", [("I", 1)])}]
+        toks = ["AA"] + dns.rr_toks({"name": SVC, "class": 1, "ttl": 120, "cf": False, "rdata": ("T", "PTR", [("N", ME)])})
+
+        def dgram(rs):
+            pk = pC13.query_pkt(0, [])
+            pk["flags"] = 0x8400
+            pk["ans"] = rs
+            b, _ = dns.encode_marked(pk, rng, 0)
+            return ["D"] + dns.name_toks(SVC) + dns.name_toks(ME) + [b.hex()]
+        toks += dgram(recs) + ["T", "1", "K"] + dns.name_toks(SVC) + ["T", "6"]
+        toks += dgram([dict(recs[which], ttl=0)]) + ["T", "1", "K"] + dns.name_toks(SVC)
+        toks += dgram([dict(r, ttl=120) for r in recs]) + ["T", "1", "K"] + dns.name_toks(SVC)
+        out.append("STORE " + " ".join(toks))
     # a long history: thousands of distinct peers announced to one discoverer over many full-size datagrams (the store grows past
     # every power of two up to 8192 names), then queries and more traffic: nothing in the handling may depend on how much is cached
     for total in ((4200,) if tier == "quick" else (1100, 4200, 8300)):
